@@ -4,7 +4,7 @@ CONSTANTS
   Timeout = 60
   ConnTimeout = 60
   Replies = 2
-  MaxFaults = 3
+  MaxFaults = 4
   ConnectGuarded = TRUE
   MaxStreams = 2
   Delays = {}
